@@ -637,7 +637,12 @@ func runRange(args []string) error {
 					return
 				}
 				ns := 0
-				s := newRangeScn(tt, *dir, 300000+k, mkRangeGeom(st, nn), 3, r, *probe, &ns)
+				// short leases (renewals past half the lease) and long ones (renewals early in the lease)
+				leaseSecs := 3
+				if k%2 == 1 {
+					leaseSecs = 3600
+				}
+				s := newRangeScn(tt, *dir, 300000+k, mkRangeGeom(st, nn), leaseSecs, r, *probe, &ns)
 				var letters []string
 				steps := 16
 				if nn > 8 {
